@@ -361,7 +361,7 @@ func c12GenPool(r *mon.Rng, kind string) c11Pool {
 		// sharing is the point: allOf users, or-types, regex types
 		switch r.Intn(8) {
 		case 7:
-			p.Families = append(p.Families, curated(8)) // roots binding one name to different types
+			p.Families = append(p.Families, curated(10)) // roots binding one name to different types
 			p.Docs = append(p.Docs, c11CuratedDocs[len(c11CuratedDocs)-4:]...)
 		case 0:
 			p.Families = append(p.Families, curated(0))
@@ -401,6 +401,12 @@ func c12GenPool(r *mon.Rng, kind string) c11Pool {
 	// documents: conforming and near-miss ones for curated roots come from the curated list
 	for len(p.Docs) < 6 {
 		p.Docs = append(p.Docs, mon.Pick(r, c11CuratedDocs[:18]))
+	}
+	// documents cut off in the middle (a syntax error after part of the value was validated)
+	for i, n := 0, len(p.Docs); i < n && i < 4; i++ {
+		if t := p.Docs[i].Text; len(t) > 6 {
+			p.Docs = append(p.Docs, c11Doc{Text: t[:len(t)*2/3]})
+		}
 	}
 	// the same documents with keys spelled through escape sequences (every spelling differs)
 	for i, n := 0, len(p.Docs); i < n; i++ {
